@@ -2,6 +2,7 @@ package main
 
 import (
 	"fmt"
+	"os"
 	"strings"
 	"time"
 
@@ -17,16 +18,17 @@ func init() {
 
 // crashHist is a history whose every statement boundary is a crash point.
 type crashHist struct {
-	idx    int
-	name   string // random / template name
-	stmts  []*proto.Stmt
-	flush  []bool              // flush after statement i
-	noise  map[int]*proto.Stmt // a statement that has to FAIL, issued right after statement i
-	noiseQ map[int]string      // the same, given as SQL text (database statements)
-	reopen []bool              // clean close + reopen after statement i
-	class  string              // never always mixed timer
-	timer  bool                // the real 100 ms flush timer runs (no explicit flushes needed)
-	db     string              // the database's name as written in SQL ("" = d1)
+	idx       int
+	name      string // random / template name
+	stmts     []*proto.Stmt
+	flush     []bool              // flush after statement i
+	noise     map[int]*proto.Stmt // a statement that has to FAIL, issued right after statement i
+	noiseQ    map[int]string      // the same, given as SQL text (database statements)
+	reopen    []bool              // clean close + reopen after statement i
+	class     string              // never always mixed timer
+	timer     bool                // the real 100 ms flush timer runs (no explicit flushes needed)
+	db        string              // the database's name as written in SQL ("" = d1)
+	timerOnly bool                // template that only makes sense with the real timer
 }
 
 func intv(i int64) proto.Val { return proto.Int(i) }
@@ -107,6 +109,11 @@ func crashTemplates(r *core.Rand) []*crashHist {
 		kgInsert("big", 1140, 20), kgInsert("big", 1160, 10), kgInsert("big", 1170, 30),
 		&proto.Stmt{Kind: "update", Table: "big", Sets: []proto.SetItem{{Col: "s", Val: proto.Str("after-split")}}, Where: model.Cmp(">=", model.ColOp("k"), model.LitOp(intv(1150)))},
 		kgTable("side"), kgInsert("side", 0, 9), kgInsert("big", 1200, 100))
+	// T9: one statement that changes well over a thousand pages, with the real
+	// timer: the tick that follows it has a lot to write, the crash comes
+	// after that tick (and after one more small statement)
+	mk("huge-insert-under-timer", kgTable("h"), kgInsert("h", 0, 6000), kgInsert("h", 6000, 1), kgInsert("h", 6001, 2),
+		&proto.Stmt{Kind: "delete", Table: "h", Where: model.Cmp("<", model.ColOp("k"), model.LitOp(intv(5)))}).timerOnly = true
 	return out
 }
 
@@ -196,6 +203,9 @@ func checkC02(c *core.Ctx) []core.Floor {
 	tr := core.NewRand(core.SubSeed(c.Seed, "C02T", 0))
 	for rep := 0; rep < 4; rep++ {
 		for _, t := range crashTemplates(tr) {
+			if t.timerOnly && rep != 3 {
+				continue
+			}
 			t.idx = 9000000 + len(hists)
 			t.schedule(tr, rep)
 			hists = append(hists, t)
@@ -212,6 +222,16 @@ func checkC02(c *core.Ctx) []core.Floor {
 		}
 		h.schedule(r, cls)
 		hists = append(hists, h)
+	}
+	if only := os.Getenv("VERIF_C02_ONLY"); only != "" {
+		// debugging aid: run the histories whose template name contains the word
+		var sel []*crashHist
+		for _, h := range hists {
+			if strings.Contains(h.name, only) {
+				sel = append(sel, h)
+			}
+		}
+		hists = sel
 	}
 	core.ParallelFor(len(hists), c.Workers, func(i int) {
 		runCrashHist(c, drv, hists[i], kill)
@@ -258,7 +278,13 @@ func crashPhase1(c *core.Ctx, drv, dir string, ch *crashHist, withImages bool, k
 	}
 	add(proto.Op{K: "sql", SQL: proto.Text("USE " + db)}, meta{kind: "other"})
 	for i, st := range ch.stmts {
-		add(proto.Op{K: "stmt", Stmt: st}, meta{kind: "stmt", i: i})
+		if ch.timer && withImages && len(st.Rows) >= 1000 {
+			// the image of this boundary is taken by the flusher itself, at
+			// the end of the first flush after the statement has returned
+			add(proto.Op{K: "stmt", Stmt: st, Dir: imgDir(dir, i, "") + "/data"}, meta{kind: "stmt", i: i})
+		} else {
+			add(proto.Op{K: "stmt", Stmt: st}, meta{kind: "stmt", i: i})
+		}
 		if ns := ch.noise[i]; ns != nil {
 			add(proto.Op{K: "stmt", Stmt: ns}, meta{kind: "noise", i: i})
 		}
@@ -282,9 +308,15 @@ func crashPhase1(c *core.Ctx, drv, dir string, ch *crashHist, withImages bool, k
 		}
 		if withImages && ch.timer {
 			// the image first: it is the state right after the acknowledgement
-			add(proto.Op{K: "image", Dir: imgDir(dir, i, "") + "/data"}, meta{kind: "image", i: i})
+			// (after a statement of thousands of rows: when the first
+			// flush since the statement began has completed)
+			wait := 0
+			if len(st.Rows) >= 1000 {
+				wait = 1 // taken at the end of the first flush after the statement
+			}
+			add(proto.Op{K: "image", Dir: imgDir(dir, i, "") + "/data", M: wait}, meta{kind: "image", i: i})
 			add(proto.Op{K: "dump"}, meta{kind: "dump", i: i})
-			if (ch.idx+i)%6 == 0 {
+			if (ch.idx+i)%6 == 0 || len(st.Rows) >= 1000 {
 				add(proto.Op{K: "sleep", N: 110}, meta{kind: "other"})
 			}
 		} else if withImages {
